@@ -90,11 +90,16 @@ func init() {
 			"parameter, Session.ID() of a parameter (directly or through a single-definition variable), or a single-definition variable read from byQueryPid[own pid] — KILL and the by-pid progress entry " +
 			"points reach exactly the requested connection / the connection registered for the requested pid. (Q4) guarded-by: procs, byQueryPid and every field of a *Process " +
 			"reached from procs are accessed only with ProcessList.mu held (writes exclusively), every function that takes mu releases it on every exit, and no *Process pointer escapes the " +
-			"ProcessList methods (Q4e). Each violated clause makes the list or a counter disagree with the set of connected sessions / running queries, or lets a cancel hit the wrong query.",
-		NotCovered: "interleavings/linearizability across methods, what callers do between Begin and End, ConnectionReady being invoked while a query runs, kill of a query through context propagation in the executor; " +
+			"ProcessList methods (Q4e). Each violated clause makes the list or a counter disagree with the set of connected sessions / running queries, or lets a cancel hit the wrong query. " +
+			"(K1) exact addressing of KILL: the connection id handed to plan.NewKill in planbuilder.buildKill derives, through integer conversions only, from the evaluation of the parsed statement's ConnID operand; every narrowing " +
+			"conversion on that way (and in plan.NewKill and the executor's buildKill) is consumed only at points reached exclusively by paths on which the operand was proven to fit the target type - by comparisons with constants or by the " +
+			"round-trip test int64(uint32(x)) == x (calls that cannot return, Builder.handleErr, end a path); Kill.ConnID is stored only by NewKill from its parameter, NewKill is referenced only by the statement builder, and the executor passes " +
+			"ConnID of its own node to ProcessList.Kill and KillConnection. A violation lets KILL hit a connection the statement did not address (KILL 4294967297 -> connection 1).",
+		NotCovered: "K1: the evaluation of the operand expression itself (getInt64Value: literal folding), ProcessList.Kill's own lookup (Q3b/Q3f), the services.KillConnection callback of the server, ids wider than the wire protocol's 32 bit; " +
+			"interleavings/linearizability across methods, what callers do between Begin and End, ConnectionReady being invoked while a query runs, kill of a query through context propagation in the executor; " +
 			"Q3d–Q3f: effects placed in function literals / deferred closures or in helper functions called from the method (none today), a process reached through anything but a variable or a call-free expression, " +
 			"BeginQuery on a connection whose previous query has not ended yet (the older query's cancel and its byQueryPid entry are overwritten/kept: inter-method state, not decided)",
-		Technique:  "stateful CFG path exploration (pairing with error-edge pruning; saturating event counters with branch facts) + who-may-write + guarded-by dataflow + CFG reachability with the pid-equality edges removed (control dependence on the identity test) + single-definition def-use of map keys",
+		Technique:  "SSA backward slice of the KILL id + forward must-analysis (interval of the operand, round-trip fact) over the CFG with no-return calls cut, for every narrowing conversion on the path; who-may-store of Kill.ConnID; stateful CFG path exploration (pairing with error-edge pruning; saturating event counters with branch facts) + who-may-write + guarded-by dataflow + CFG reachability with the pid-equality edges removed (control dependence on the identity test) + single-definition def-use of map keys",
 		Run: func(c *Ctx) {
 			a := c37Real()
 			a.guardedBy = func(c *Ctx) {
@@ -106,6 +111,8 @@ func init() {
 				}
 			}
 			runC37(c, a)
+			runC37Kill(c, c37KillCfg{builderRel: "sql/planbuilder", builderFn: "Builder.buildKill", planRel: "sql/plan", ctor: "NewKill", nodeType: "Kill", idField: "ConnID",
+				execRel: "sql/rowexec", execFn: "BaseBuilder.buildKill", operandField: "ConnID", sinks: []string{"Kill", "KillConnection"}, floor: 8})
 		},
 		Fixture: func(c *Ctx, fx *Prog) {
 			fa := func(rel string) c37Anchors {
